@@ -114,8 +114,9 @@ def class_cases():
                     out.append(rx(pat.encode(), bytes([b, 10]), f, 1))
     for pat in ("[a-f]", "[^a-f]", "[]-a]", "[A-Z_]", "."):
         for b in range(1, 256):
+            ch = bytes([b]) if b < 128 else chr(b).encode("utf-8")     # U+0080..U+00FF as valid two-byte characters
             for f in (0, 1):
-                out.append(rx(pat.encode(), bytes([b, 10]), f, 1))
+                out.append(rx(pat.encode(), ch + b"\n", f, 1))
     return out
 
 def rset_cases(rng, count):
